@@ -100,8 +100,8 @@ func (x *Exec) stmt(s ast.Stmt, st *State, label string) outcome {
 	case *ast.IncDecStmt:
 		v := x.expr(s.X, st)
 		one := Val{T: IntLit(1), Ty: tyInt}
-		if v.T.Sort != SInt {
-			x.unsupported(s, "inc/dec on non-int")
+		if v.T.Sort != SInt && v.T.Sort != SReal && v.T.Sort != SXR {
+			x.unsupported(s, "inc/dec on unsupported type")
 		}
 		op := "+"
 		if s.Tok == token.DEC {
@@ -182,6 +182,9 @@ func (x *Exec) stmt(s ast.Stmt, st *State, label string) outcome {
 
 func (x *Exec) declare(o *types.Var, v Val, st *State) {
 	ty := x.w.goTy(o.Type(), x.model.BV)
+	if ty.K == TOpaque && v.Ty.K != TOpaque {
+		v = x.toInterface(v, ty, nil)
+	}
 	t := x.coerceTo(v, ty)
 	if x.heapified[o] {
 		st.vars[o] = x.allocCell(st, Val{T: t, Ty: ty})
@@ -283,6 +286,9 @@ func (x *Exec) assign(lhs ast.Expr, v Val, st *State) {
 			x.unsupported(l, "assignment to non-variable")
 		}
 		ty := x.w.goTy(o.Type(), x.model.BV)
+		if ty.K == TOpaque && v.Ty.K != TOpaque {
+			v = x.toInterface(v, ty, nil)
+		}
 		t := x.coerceTo(v, ty)
 		if o.Pkg() != nil && o.Parent() == o.Pkg().Scope() {
 			x.readGlobal(st, o) // make sure the entry value is recorded
@@ -625,6 +631,24 @@ func (x *Exec) invEnv(st *State, pos token.Pos, extra map[string]Val) *CEnv {
 						}
 						return Val{T: t, Ty: ty}, true
 					}
+				}
+			}
+		}
+		// a variable that has gone out of lexical scope but is still part of
+		// the symbolic state (e.g. the counter of the loop just left), if the
+		// name is unambiguous
+		{
+			var found types.Object
+			n := 0
+			for o := range st.vars {
+				if o.Name() == name {
+					found = o
+					n++
+				}
+			}
+			if n == 1 {
+				if v, ok := found.(*types.Var); ok && !x.heapified[v] {
+					return Val{T: st.vars[found], Ty: x.w.goTy(v.Type(), x.model.BV)}, true
 				}
 			}
 		}
